@@ -61,6 +61,11 @@ def gen(rng, tier, index):
         events = [[rng.choice(["stop", "stop", "disconnect"]), rng.choice([0.3, 0.9, 1.4, 2.2, 3.5]) * rt]]
         if events[0][0] == "stop" and rng.random() < 0.4:
             stop_save_fault = [rng.choice(["open", "write", "fsync", "rename"]), rng.choice(["EIO", "ENOSPC"])]
+        elif rng.random() < 0.35:
+            # stop() (or disconnect) lands while a dial is IN FLIGHT - a slow handshake that then succeeds
+            n_fail = rng.randint(1, 3)
+            plan = ["fail"] * n_fail + ["slow", "ok", "ok"]
+            events = [[events[0][0], n_fail * rt + rng.choice([0.05, 0.1, 0.2])]]
     if mode == "events":
         for _ in range(rng.randint(1, 8)):
             name = rng.choice(EVENTS[flavour])
